@@ -53,9 +53,9 @@ ASSUMPTIONS = [
     'three-point planes: orientation is proved when no tested quantity lies '
     'in the band 0 < |v| <= 1e-14 (the code\'s epsilon); the band is swept '
     'numerically only',
-    'SQ: sense kept only when G <= 0 (finding sq_positive_g_flipped); X/Z '
-    'cone form: first point off the apex (finding '
-    'xyz_cone_first_point_on_apex); Y cards always fail (y_card_missing)',
+    'SQ: sense kept only when G <= 0 (finding sq_positive_g_flipped); X/Y/Z '
+    'cone form: r1, r2 >= 0 (MCNP admissibility; the sheet is then the one '
+    'containing both points, apex-coincident points included)',
     'the 5-entry TX/TY/TZ form is not an MCNP card; it is read as B = C',
 ]
 
@@ -336,15 +336,14 @@ def gen_malformed(rng):
                                             'k/z', 'kx1', 'k/z1']))
         prm[1 if len(mn) == 2 else 3] = -dpos(rng, 3)
     elif fault == 'table':
-        mn = rng.choice(['t', 'y', 'y'])
-        prm = gen_xyz(rng, rng.choice('24')) if mn == 'y' \
-            else [dy(rng) for _ in range(6)]
+        mn = 't'
+        prm = [dy(rng) for _ in range(rng.choice([5, 6, 6]))]
     elif fault == 'p_count':
         mn = 'p'
         prm = [dy(rng) for _ in range(rng.choice([0, 1, 2, 3, 5, 6, 7, 8,
                                                    10, 12]))]
     elif fault == 'xyz_count':
-        mn = rng.choice('xz')
+        mn = rng.choice('xyz')
         prm = [dy(rng) for _ in range(rng.choice([0, 1, 3, 5, 6, 8]))]
     elif fault == 'sheet':
         mn, prm = gen_card(rng, rng.choice(['kx1', 'ky1', 'kz1', 'k/x1',
@@ -573,21 +572,12 @@ def sweep_card(rng, mn, prm, n_random=40, n_cross=8):
 
 def finding_class(mn, prm, status, detail):
     '''Name of the open finding that this failing card belongs to, or None.'''
-    if mn == 'y' and status == 'rejected' and detail.get('exc') == 'KeyError' \
-            and detail.get('msg', '').strip() == "'y'" and len(prm) in (2, 4):
-        return 'y_card_missing'
-    if mn in ('x', 'z') and status == 'wrong' and len(prm) == 4 \
-            and prm[0] != prm[2] and prm[1] != prm[3] and prm[1] == 0.0 \
-            and prm[3] > 0.0 and prm[2] > prm[0]:
-        return 'xyz_cone_first_point_on_apex'
     if mn == 'sq' and status == 'wrong' and len(prm) == 10 and prm[6] > 0.0:
         return 'sq_positive_g_flipped'
     return None
 
 
 WITNESSES = [
-    ('y_card_missing', 'y', [0.0, 1.0, 2.0, 3.0]),
-    ('xyz_cone_first_point_on_apex', 'x', [0.0, 0.0, 1.0, 1.0]),
     ('sq_positive_g_flipped', 'sq',
      [-1.0, -1.0, -1.0, 0.0, 0.0, 0.0, 1.0, 0.0, 0.0, 0.0]),
 ]
